@@ -67,3 +67,28 @@ Theorem c02_ticket_session_from_store : forall mac session unseal store cfg cs n
                     store id = Some ct /\ unseal sec ct = Some s.
 Proof. exact manager_load_session_implies_read. Qed.
 Print Assumptions c02_ticket_session_from_store.
+
+(* ---- the opacity clause, in the symbolic (Dolev-Yao) reading of Model/Symbolic.v ----
+   The session cookie is the signed encryption of the session fields under the cookie secret; the
+   server-side entry is their encryption under the per-ticket secret that only the browser's ticket
+   cookie carries.  An observer of the cookie without the cookie secret, an observer of the store
+   (entry only), and an observer of the ticket cookie alone each learn no token, e-mail or user
+   name; browser and store together do (that is how a request is served). *)
+From V.Model Require Import Symbolic.
+From V.Proofs Require Import SymbolicProofs.
+
+Theorem c02_cookie_opaque : forall n, ~ analz [session_cookie] (TSecret n).
+Proof. exact session_cookie_secrecy. Qed.
+Print Assumptions c02_cookie_opaque.
+
+Theorem c02_store_entry_opaque : forall n, ~ analz [store_entry] (TSecret n).
+Proof. exact store_entry_secrecy. Qed.
+Print Assumptions c02_store_entry_opaque.
+
+Theorem c02_ticket_cookie_has_no_session_field : forall n, n <> 9%nat -> ~ analz [ticket_cookie] (TSecret n).
+Proof. exact ticket_cookie_has_no_session_field. Qed.
+Print Assumptions c02_ticket_cookie_has_no_session_field.
+
+Theorem c02_ticket_and_store_recover : analz [ticket_cookie; store_entry] a_access.
+Proof. exact ticket_and_store_recover. Qed.
+Print Assumptions c02_ticket_and_store_recover.
